@@ -419,7 +419,10 @@ def check(ctx):
             ok = (is_call(body, f"jax.numpy.{op}") and kw(body, "axis") == n("axis")
                   and lam[1] == ("*xs",) and body[2] == (n("xs"),)
                   and rt_[2][1] == ("star", n("pytrees")))
-        ctx.ob("C08.R5", fi_, f"{fname} applies jnp.{op} along the given axis to the "
+        dflt = fi_.node.args.defaults
+        ok = ok and len(dflt) == 1 and isinstance(dflt[0], ast.Constant) and dflt[0].value == 0
+        ctx.ob("C08.R5", fi_, f"{fname} applies jnp.{op} along the given axis (default: the "
+                              f"leading axis 0, which callers use as the chain axis) to the "
                               f"corresponding leaves of all pytrees, in list order", ok,
                detail=short(rt_ or ()))
 
